@@ -353,7 +353,7 @@ B("sink.style_text", ["C02", "C08"], CB, "bounded_style_sink", "CellBuffer::styl
   "payloads of length <= 3 (thorough 4) over {<,&,>,],a,;,LF,U+0001,U+FFFE,\",'} in 3 channels: legend css, font family, stroke colour")
 B("C16.legend_css_format", ["C16"], CB, "bounded_legend_css_format", "CellBuffer::legend_css / add_css_styles",
   "'.svgbob .name{ decl }' per entry (also when a name repeats), in order, joined by newlines", "0..4 entries x 3 names x 4 declarations, every second list with a repeated name")
-B("C15.escape_line", ["C15", "C01"], CB, "bounded_escape_line", "CellBuffer::escape_line (on top of parser::line_parse)",
+B("C15.escape_line", ["C15", "C01", "C04"], CB, "bounded_escape_line", "CellBuffer::escape_line (on top of parser::line_parse)",
   "never panics; quoted segments found as '\"'..next '\"'; text stored verbatim (without fillers) at the opening quote's cell; "
   "the segment's columns, quotes included, blanked; everything else untouched",
   "all column-expanded rows of <= 6 tokens (thorough 8) over {\", a, |, space, e-acute, wide CJK + NUL filler} (no backslash)")
